@@ -268,7 +268,7 @@ def exhaustive(params, graph="./0:0/1:1"):
         for roe in "01":
             for wrap in (True, False):
                 for a in items:
-                    for b in [[]] + items[::7]:
+                    for b in [[]] + items[::29]:
                         prog = a + b
                         if wrap:
                             prog = ["C"] + prog + [")"]
